@@ -70,11 +70,60 @@ def _mutable_repr(v):
     return None
 
 
+def _umask():
+    m = os.umask(0o022)
+    os.umask(m)
+    return m
+
+
+def make_realfs_history():
+    """the real host file system (no in-memory model): P with a relative INCLUDE, a program rejected INSIDE an include that
+    lives in another directory, P again - same listing / symbols / image, same working directory"""
+    def body(ctx):
+        import shutil
+        import tempfile
+        d = tempfile.mkdtemp(prefix="verif-c17-")
+        old = os.getcwd()
+        bad = []
+        try:
+            os.makedirs(os.path.join(d, "lib", "deep"))
+            open(os.path.join(d, "ok.asm"), "w").write("DELAY LDB #5\nDLOOP DECB\n BNE DLOOP\n RTS\n")
+            open(os.path.join(d, "lib", "broken.asm"), "w").write("X1 NOP\n FROB 1\n")
+            open(os.path.join(d, "lib", "undef.asm"), "w").write("X2 LDA NOWHERE\n")
+            open(os.path.join(d, "lib", "deep", "fine.asm"), "w").write("X3 NOP\n")
+            open(os.path.join(d, "lib", "outer.asm"), "w").write(" INCLUDE lib/deep/fine.asm\n FROB 2\n")
+            os.chdir(d)
+            p_lines = [" ORG $3000\n", "START LDA #1\n", " INCLUDE ok.asm\n", "DONE RTS\n"]
+            base = listing(assemble(list(p_lines)))
+            cwd0 = os.getcwd()
+            for q in ([" INCLUDE lib/broken.asm\n"], [" INCLUDE lib/undef.asm\n", " NOP\n"], [" INCLUDE lib/outer.asm\n"],
+                      [" INCLUDE lib/deep/fine.asm\n", " NOP\n"], [" INCLUDE nowhere/none.asm\n"]):
+                assemble(list(q))
+                if os.getcwd() != cwd0:
+                    bad.append("working directory changed by %r" % (q,))
+                now = listing(assemble(list(p_lines)))
+                if now != base:
+                    bad.append("P differs after %r" % (q,))
+                if bad:
+                    break
+            if base[0] == "rejected":
+                bad.append("P itself was rejected: %r" % (base,))
+        finally:
+            os.chdir(old)
+            shutil.rmtree(d, ignore_errors=True)
+        return (not bad), {"bad": bad}
+    ob = Ob("C17:realfs-history", body, timeout=300, tags={"part": "history"}, text="relative INCLUDEs on the real file system, rejected includes in other directories in between (enumeration)", r4=False)
+    ob.native_only = True
+    ob.ncases = 5
+    return ob
+
+
 def snapshot():
     """module-level mutable state of every cocoasm module: mutable class attributes, mutable default arguments of
     functions and methods, module globals that are lists/dicts"""
     import inspect
-    snap = {}
+    snap = {"process.cwd": os.getcwd(), "process.environ": sorted(os.environ.items()), "process.sys.path": tuple(sys.path),
+            "process.umask": _umask(), "process.recursionlimit": sys.getrecursionlimit()}
     for mname, mod in sorted(sys.modules.items()):
         if not (mname == "cocoasm" or mname.startswith("cocoasm.")) or mod is None:
             continue
@@ -373,6 +422,7 @@ def obligations(tier, seed):
         obs.append(make_reject_twice(name, lines))
     for pname, prog in meta.PROGRAMS.items():
         obs.append(make_history(pname, {k: (lo + hi) // 2 for k, (cls, lo, hi) in prog["lits"].items()}))
+    obs.append(make_realfs_history())
     obs.append(make_process_ties())
     obs.append(make_include("P-P", []))
     obs.append(make_include("P-Q-P", ["Q"]))
